@@ -18,6 +18,8 @@ CREDS = [
     ("a,b=c", 'p"w d', "z,=\" y"),
     ("user@example.org", "", ""),
     ("u", "tok.en-123", "\xe9"),
+    ("Bearer", "Bearer abc", "n,a=x"),  # credentials that look like pieces of the mechanisms' own framing
+    ("user", "auth=Bearer x\x01", ""),
 ]
 
 
@@ -86,7 +88,7 @@ def check_payload(mech, entry, login, password, authz, realm="ref"):
     return None
 
 
-def one(announced, authmech, cred, verdict, realm="ref"):
+def one(announced, authmech, cred, verdict, realm="ref", final_sasl=False):
     if announced is None:
         caps = [(b"IMPLEMENTATION", b"x"), (b"SIEVE", b"fileinto")]
     else:
@@ -95,6 +97,8 @@ def one(announced, authmech, cred, verdict, realm="ref"):
     login, password, authz = cred
     srv.digest_users = {login: password}
     srv.digest_realm = realm
+    # RFC 5804 2.1: final server data either in a further round trip or with the completion response, as (SASL "...")
+    srv.auth_final_sasl = final_sasl
     s = wire.open_session(srv, authmech=authmech, login=login, password=password, authz=authz)
     o = s.connect_outcome
     want = expected_mech(announced, authmech)
@@ -144,17 +148,18 @@ def task(t):
                 for verdict, realm in ((True, "ref"), (True, None), (False, "other.example"), (False, None), (True, "ref")):
                     if realm != "ref" and not (announced and "DIGEST-MD5" in announced):
                         continue
-                    r = one(announced, authmech, cred, verdict, realm)
-                    n += 1
-                    distinct.add((tuple(announced) if announced is not None else None, authmech, ci, verdict, r[0] if r else None))
-                    if r:
-                        viols.append({"property": "C16", "engine": "wire",
-                                      "signature": ["C16", str(r[2]), "cred%d" % ci if r[0] == "payload" else "any-cred", r[0]],
-                                      "what": "announced %r, authmech %r, credentials %r, server says %s: %s" % (announced, authmech, cred, "OK" if verdict else "NO", r[1]),
-                                      "case": {"announced": announced, "authmech": authmech, "cred": ci, "verdict": verdict, "realm": realm},
-                                      "witness": "SASL %r authmech=%r cred=%r verdict=%s" % (announced, authmech, cred, verdict), "observed": r[1][:160]})
-                    elif sample is None and announced and len(announced) > 2 and authmech is None:
-                        sample = {"announced": announced, "authmech": authmech, "credentials": list(cred), "chosen": expected_mech(announced, authmech)}
+                    for final_sasl in (False, True):
+                        r = one(announced, authmech, cred, verdict, realm, final_sasl)
+                        n += 1
+                        distinct.add((tuple(announced) if announced is not None else None, authmech, ci, verdict, r[0] if r else None))
+                        if r:
+                            viols.append({"property": "C16", "engine": "wire",
+                                          "signature": ["C16", str(r[2]) + ("/final-sasl" if final_sasl else ""), "cred%d" % ci if r[0] == "payload" else "any-cred", r[0]],
+                                          "what": "announced %r, authmech %r, credentials %r, server says %s: %s" % (announced, authmech, cred, "OK" if verdict else "NO", r[1]),
+                                          "case": {"announced": announced, "authmech": authmech, "cred": ci, "verdict": verdict, "realm": realm, "final_sasl": final_sasl},
+                                          "witness": "SASL %r authmech=%r cred=%r verdict=%s" % (announced, authmech, cred, verdict), "observed": r[1][:160]})
+                        elif sample is None and announced and len(announced) > 2 and authmech is None:
+                            sample = {"announced": announced, "authmech": authmech, "credentials": list(cred), "chosen": expected_mech(announced, authmech)}
     return dict(n=n, distinct=len(distinct), violations=viols, sample=sample)
 
 
@@ -181,7 +186,7 @@ def replay(payload):
     c = payload["case"]
     # realm-bearing and realm-less challenges alternate in one process, as in the exploration
     one(c["announced"], c["authmech"], CREDS[c["cred"]], True, "ref")
-    r = one(c["announced"], c["authmech"], CREDS[c["cred"]], c["verdict"], c.get("realm", "ref"))
+    r = one(c["announced"], c["authmech"], CREDS[c["cred"]], c["verdict"], c.get("realm", "ref"), bool(c.get("final_sasl")))
     if r:
         sig = list(payload["signature"])
         sig[3] = r[0]
